@@ -5,11 +5,16 @@
 //   c05 node-topo <seed> <n> <outbase>    the real PolygonNodeTopology functions on integer points vs the Lean copy
 //   c05 ring-nested <seed> <n> <outbase>  the real PolygonTopologyAnalyzer::isRingNested on pairs of integer rings vs the Lean copy
 //                                         (and, for rings that do not cross, vs the exact containment reference)
+//   c05 pair-rule <seed> <n> <outbase>    the real PolygonIntersectionAnalyzer::processIntersections (findInvalidIntersection) on one pair of
+//                                         ring segments, both flag settings, vs the Lean copy (proved equal to the reference's rule)
 //   c05 replay <file>     lines: "V | <geom tokens> | ..."  or bare "<srid> <geom tokens>"  or "W <wkt>"
 #include "validgen.h"
 #include "c05touch.h"
 #include <geos/algorithm/PolygonNodeTopology.h>
 #include <geos/operation/valid/PolygonTopologyAnalyzer.h>
+#include <geos/operation/valid/PolygonIntersectionAnalyzer.h>
+#include <geos/operation/valid/PolygonRing.h>
+#include <geos/noding/BasicSegmentString.h>
 #include <fstream>
 #include <iostream>
 using namespace vh;
@@ -108,6 +113,43 @@ int main(int argc, char** argv) {
             out.emit(c, std::to_string(c01) + " " + std::to_string(cb) + " " + (cr ? "1" : "0") + " " + (i0 ? "1" : "0") + " " + (i1 ? "1" : "0")); }
         GEOS_finish_r(h); return 0; }
     ValidGen gen(r, h, &out); TouchGen touch(r, &out);
+    if (stream == "pair-rule") {
+        using namespace geos::operation::valid; using geos::noding::BasicSegmentString;
+        typedef TouchGen::Ring Ring;
+        auto line = [](const Ring& g) { std::string s; for (auto& p : g) s += " " + std::to_string((long) p.x) + " " + std::to_string((long) p.y); return s; };
+        auto dedupR = [](Ring& g) { Ring o; for (auto& p : g) if (o.empty() || !hpEq(o.back(), p)) o.push_back(p); g = o; };
+        auto okRing = [](const Ring& g) { if (g.size() < 4 || !hpEq(g.front(), g.back())) return false; for (auto& p : g) if (!std::isfinite(p.x) || !std::isfinite(p.y) || p.x != std::floor(p.x) || p.y != std::floor(p.y) || std::fabs(p.x) > 1e6 || std::fabs(p.y) > 1e6) return false; return true; };
+        long emitted = 0, guard = 0;
+        while (emitted < n && guard++ < 50 * n + 1000) {
+            Ring a, b; std::string fam; bool same = false; int pick = (int) r.below(100);
+            if (pick < 30) { auto p = touch.parts((int) r.below(3), r.chance(70)); touch.spin(p.A, false); touch.spin(p.B, false); a = p.A; b = p.B; if (r.chance(50)) std::swap(a, b); fam = "touch"; }
+            else if (pick < 60) { auto& gg = gen.gg; gg.span = r.chance(50) ? 8 : 5; GGeom acc; gg.setPartner(acc, 0); auto x = gg.ring0(); GElem e; e.kind = 2; e.rings.push_back(x); acc.elems.push_back(e);
+                gg.setPartner(acc, r.chance(50) ? 60 : 100); auto y = gg.ring0(); gg.setPartner(GGeom{}, 0); a = ValidGen::toHP(x); b = ValidGen::toHP(y); fam = "rand_contact"; }
+            else { HGeo g; std::string f; try { g = gen.generate(f); } catch (...) { continue; } std::vector<Ring*> rs; eachSeq(g, [&](std::vector<HP>& q, bool ring, int) { if (ring) rs.push_back(&q); }); if (rs.empty()) continue;
+                a = *rs[r.below(rs.size())]; same = r.chance(75) || rs.size() < 2; if (!same) b = *rs[r.below(rs.size())]; fam = same ? "self" : "template_rings"; }
+            dedupR(a); if (same) b = a; else dedupR(b);
+            if (!okRing(a) || !okRing(b)) continue;
+            { HGeo tmp; tmp.type = 1; Xform t; t.sym = (int) r.below(8); if (r.chance(50)) { t.tx = r.range(-100, 100); t.ty = r.range(-100, 100); } tmp.seqs = {a}; applyX(tmp, t); a = tmp.seqs[0]; tmp.seqs = {b}; applyX(tmp, t); b = tmp.seqs[0]; }
+            bool samePoly = r.chance(60);
+            auto csA = csOf(a), csB = csOf(b); auto lrA = gf->createLinearRing(csOf(a)), lrB = gf->createLinearRing(csOf(b));
+            PolygonRing prA(lrA.get()); std::unique_ptr<PolygonRing> prB(samePoly ? new PolygonRing(lrB.get(), 0, &prA) : new PolygonRing(lrB.get()));
+            BasicSegmentString ssA(csA.get(), &prA), ssB(csB.get(), prB.get());
+            size_t na = a.size() - 1, nb = b.size() - 1; int per = 0;
+            std::vector<std::pair<size_t, size_t>> cand;
+            for (size_t i = 0; i < na; i++) for (size_t j = 0; j < nb; j++) { if (same && i == j) continue;
+                double ax0 = std::min(a[i].x, a[i + 1].x), ax1 = std::max(a[i].x, a[i + 1].x), ay0 = std::min(a[i].y, a[i + 1].y), ay1 = std::max(a[i].y, a[i + 1].y);
+                double bx0 = std::min(b[j].x, b[j + 1].x), bx1 = std::max(b[j].x, b[j + 1].x), by0 = std::min(b[j].y, b[j + 1].y), by1 = std::max(b[j].y, b[j + 1].y);
+                bool meet = ax0 <= bx1 && bx0 <= ax1 && ay0 <= by1 && by0 <= ay1; if (meet || r.chance(3)) cand.push_back({i, j}); }
+            for (size_t k = cand.size(); k > 1; k--) std::swap(cand[k - 1], cand[r.below(k)]);
+            for (auto& ij : cand) { if (per++ >= 8 || emitted >= n) break;
+                for (int flag = 0; flag < 2; flag++) {
+                    std::string res;
+                    try { PolygonIntersectionAnalyzer an(flag == 1); an.processIntersections(&ssA, ij.first, same ? (geos::noding::SegmentString*) &ssA : &ssB, ij.second); res = std::to_string(an.getInvalidCode()); }
+                    catch (std::exception&) { res = "X"; }
+                    out.count("family_" + fam); out.count("code_" + res);
+                    out.emit("Q " + std::to_string(flag) + " " + (same ? "1 " : "0 ") + std::to_string(ij.first) + " " + std::to_string(ij.second) + " |" + line(a) + " |" + line(b), res); emitted++; } }
+        }
+        GEOS_finish_r(h); return 0; }
     if (stream == "ring-nested") {
         using geos::operation::valid::PolygonTopologyAnalyzer;
         typedef TouchGen::Ring Ring;
